@@ -313,7 +313,14 @@ impl AsCborValue for CoseKdfContext {
 #[derive(Debug, Default)]
 pub struct CoseKdfContextBuilder(CoseKdfContext);
 
-impl CoseKdfContextBuilder {
+«impl CoseKdfContextBuilder {
+    // CoseKdfContext has private fields: the documented effects are stated through closed spec functions
+    pub closed spec fn after_algorithm_id(self, alg: iana::Algorithm) -> CoseKdfContext { CoseKdfContext { algorithm_id: Algorithm::Assigned(alg), ..self.0 } }
+    pub closed spec fn after_add_supp_priv_info(self, r: Self, x: Vec<u8>) -> bool {
+        r.0 == (CoseKdfContext { supp_priv_info: r.0.supp_priv_info, ..self.0 }) && r.0.supp_priv_info@ == self.0.supp_priv_info@.push(x)
+    }
+}
+»impl CoseKdfContextBuilder {
     
         /// Constructor for builder.
         pub fn new() -> Self {
@@ -351,14 +358,16 @@ impl CoseKdfContextBuilder {
 
     /// Set the algorithm.
     #[must_use]
-    pub fn algorithm(self, alg: iana::Algorithm) -> Self { let mut self_ = self;
+    pub fn algorithm(self, alg: iana::Algorithm) ->« (r:» Self«)
+        ensures r.inner() == self.after_algorithm_id(alg),» { let mut self_ = self;
         self_.0.algorithm_id = Algorithm::Assigned(alg);
         self_
     }
 
     /// Add supplemental private info.
     #[must_use]
-    pub fn add_supp_priv_info(self, supp_priv_info: Vec<u8>) -> Self { let mut self_ = self;
+    pub fn add_supp_priv_info(self, supp_priv_info: Vec<u8>) ->« (r:» Self«)
+        ensures self.after_add_supp_priv_info(r, supp_priv_info),» { let mut self_ = self;
         self_.0.supp_priv_info.push(supp_priv_info);
         self_
     }
